@@ -1010,7 +1010,7 @@ class Network(Cached):
         self.graph.rewire(iterations)
 
         # update all data that depends on rewired edge list:
-        self.set_edge_list(self.graph.get_edgelist())
+        self.set_edge_list(self.graph.get_edgelist(), self.N)
 
     def edge_list(self):
         """
